@@ -296,8 +296,11 @@ def _reduce_kw(draw, a, tuples=True, keepdims=True):
     ax = axis_of(draw, ndim_of(a), tuples=tuples)
     if ax is not None or draw(st.booleans()):
         kw["axis"] = ax
-    if keepdims and draw(st.integers(0, 2)) == 0:
-        kw["keepdims"] = draw(st.booleans())
+    if keepdims and draw(st.booleans()):
+        kw["keepdims"] = draw(st.sampled_from([True, True, False]))
+        if kw["keepdims"] and ndim_of(a) >= 2 and draw(st.integers(0, 2)) == 0:
+            # the kept unit axis of a negative axis sits where the axis was, counted from the end
+            kw["axis"] = draw(st.sampled_from(list(range(-ndim_of(a), 0))))
     return kw
 
 
@@ -310,13 +313,26 @@ def _with_dtype(draw, kw, a):
     return kw
 
 
+def _mask(draw, a):
+    """A reduction mask that leaves something out and something in (where the size allows): mostly of the
+    operand's full shape, sometimes of a shape that broadcasts to it."""
+    shp = tuple(a["shape"]) if draw(st.integers(0, 2)) else gen.broadcast_member(draw, tuple(a["shape"]))
+    size = gen.size_of(shp)
+    vals = [True] * size
+    if size >= 2:
+        out = draw(st.integers(1, max(1, size // 2)))
+        for i in draw(st.permutations(list(range(size))))[:out]:
+            vals[i] = False
+    elif size == 1:
+        vals = [draw(st.sampled_from([True, True, False]))]
+    return NP(vals, "bool", shape=shp)
+
+
 def _with_where(draw, kw, a, og, with_initial=False):
     """Sometimes a reduction mask (numeric operands only: numpy itself is the reference there)."""
     const = getattr(og, "mode", "") == "const"
     if draw(st.integers(0, 4)) == 0 and (const or with_initial):
-        shp = gen.broadcast_member(draw, tuple(a["shape"]))
-        size = gen.size_of(shp)
-        kw["where"] = NP(draw(st.lists(st.booleans(), min_size=size, max_size=size)), "bool", shape=shp)
+        kw["where"] = _mask(draw, a)
         if not const:
             # (numpy needs a start value to mask a fold over objects: the exact model is such a fold)
             kw.setdefault("initial", draw(st.sampled_from([1, 2, -3])))
@@ -431,10 +447,21 @@ def _zero_d_reduction(draw, og):
     return {"args": [P(a)], "kw": kw}
 
 
+def _kept_negative_axis(draw, og):
+    """A fold over a negative axis of an array without unit axes, the folded axis kept: the unit axis has to sit
+    where the axis was (counted from the end), which the result's shape shows."""
+    shape = draw(st.sampled_from([(2, 3), (3, 2), (2, 3, 2), (3, 2, 2), (2, 2, 3)]))
+    a = og.array(draw, shape=shape)
+    axis = draw(st.sampled_from(list(range(-len(shape), 0)) + [-1]))
+    return {"args": [P(a)], "kw": {"axis": axis, "keepdims": True}}
+
+
 @recipe("sum", "reduction", method="sum", reduce="add")
 def _sum(draw, og):
     if draw(st.integers(0, 9)) == 0:
         return _zero_d_reduction(draw, og)
+    if draw(st.integers(0, 9)) == 0:
+        return _kept_negative_axis(draw, og)
     a = og.array(draw, min_ndim=1)
     return {"args": [P(a)], "kw": _with_where(draw, _with_initial(draw, _with_dtype(draw, _reduce_kw(draw, a), a)), a, og, True)}
 
@@ -443,18 +470,31 @@ def _sum(draw, og):
 def _prod(draw, og):
     if draw(st.integers(0, 9)) == 0:
         return _zero_d_reduction(draw, og)
+    if draw(st.integers(0, 6)) == 0:
+        return _kept_negative_axis(draw, og)
     a = og.array(draw, min_ndim=1)
     return {"args": [P(a)], "kw": _with_where(draw, _with_initial(draw, _with_dtype(draw, _reduce_kw(draw, a), a)), a, og, True)}
 
 
 @recipe("mean", "reduction", method="mean")
 def _mean(draw, og):
+    if draw(st.integers(0, 9)) == 0:
+        return _kept_negative_axis(draw, og)
     a = og.array(draw, min_ndim=1)
     kw = _with_dtype(draw, _reduce_kw(draw, a), a)
     if "dtype" not in kw and draw(st.integers(0, 2)) == 0:
         kw["dtype"] = {"$dtype": "complex128"}  # (a requested type that shows in the result whatever the input)
     if kw.get("dtype", {}).get("$dtype") == "int64":
         kw.pop("dtype")  # numpy's integer mean truncates: not the arithmetic mean any more
+    if draw(st.integers(0, 3)) == 0:
+        # a mask: the mean of the selected elements only (divided by their number, not by all)
+        kw["where"] = _mask(draw, a)
+        # (the mean of nothing is NaN, also for numpy: every slice keeps at least one element)
+        ax = kw.get("axis")
+        ax = ax.get("$npint", tuple(ax.get("$tuple", ()))) if isinstance(ax, dict) else ax
+        m = numpy.array(kw["where"]["$np"]["v"], dtype=bool).reshape(tuple(kw["where"]["$np"]["shape"]))
+        if not numpy.all(numpy.sum(numpy.broadcast_to(m, tuple(a["shape"])), axis=ax)):
+            kw.pop("where")
     return {"args": [P(a)], "kw": kw}
 
 
